@@ -16,6 +16,12 @@ Three case kinds in one pool:
         the blocks with L = 4 also get window bounds that are not sample times and, on all their windows, the
         relation "after same_start(start, end) every signal reports the master's
         Signal.get_section_average(start=, end=)" (the library's public definition of the chosen section).
+
+Round 3 (general lessons): 'tm-long' cases: long clusters (4999, 5001, 8192 samples; permutation master, unique lag by an exact
+int64 brute force); 'tm' clusters also as int64, scaled by 2^-30 and riding on a level of 2^20; 'ss' blocks also with samples a
+few 1e-9 around zero and ~1e-3 apart on a common level of 1024 (tolerances relative to the sample size); short rotation pairs
+also with components held as int64 / int16 / uint8 / float32, scaled by 2^-30 / 2^20, and on AccSignal objects with a history;
+angles next to 0 and 90; every returned combination is overwritten in place and the components are verified afterwards.
 """
 import itertools
 import math
@@ -29,7 +35,8 @@ from ..compare import bits_equal
 
 # ---- rotation menus ---------------------------------------------------------------------------
 SIG_ROT = (-1, 0, 2)
-ANGLES = (0, 30, 90, 135, 180, 210, -45, 360)
+# 1e-9 and 90.0000001: angles next to the special values 0 and 90 (the formula holds for the angle actually passed)
+ANGLES = (0, 30, 90, 135, 180, 210, -45, 360, 1e-9, 90.0000001)
 OFFSETS = (0, 30, 200)
 POINTS = (3, 7)
 ROT_DT = 0.01
@@ -38,12 +45,30 @@ MEASURES = ('pga', 'pgv', 'arias_intensity', 'func-scalar', 'func-series', 'velo
 # named parameters whose value is a whole series: the scan must return that series for every angle (shape (points, len))
 SERIES_MEASURES = ('velocity', 'displacement', 's_a')
 S_A_POINTS = (3,)       # 's_a' (100 periods, two spectra per angle) only with the smaller number of scan points
+# component containers / scalings (pairs of length <= ROT_VARIANT_MAX_LEN; actual samples v*mult+offset, exact in the type;
+# 2^-30 ~ 1e-9 and 2^20 ~ 1e6: the combination is linear and every measure homogeneous, tolerances relative to the scale).
+# 'history': the two AccSignal objects held other records of a different length before (combined, scanned, lazy properties
+# read, auxiliary statistics generated), then reset_values(this record).
+ROT_VARIANTS = (('i64', 1, 0, np.int64), ('i16 (v*10000)', 10000, 0, np.int16), ('u8 (v*80+80)', 80, 80, np.uint8),
+                ('f32', 1, 0, np.float32), ('f64 (v*2^-30)', Fraction(1, 2 ** 30), 0, float), ('f64 (v*2^20)', 2 ** 20, 0, float),
+                ('history', 1, 0, float))
+ROT_VARIANT_MAX_LEN = 2
+ROT_VARIANT_SCAN = ((30, 3),)          # (offset, points) of the scans run for the variants (every measure)
 
 # ---- time_match menus -------------------------------------------------------------------------
 TM_LENGTHS = (10, 12)
 TM_FAMILY = 30
 TM_STEPS = (2, 3, 5)
 TM_DT = 0.1
+# containers / scalings of the cluster (master m and its lagged copies): m, m as int64, m*2^-30 (residuals ~1e-18), m+2^20
+# (samples differ by ~1e-6 of their size)
+TM_VARIANTS = (('f64', 1, 0, float), ('i64', 1, 0, np.int64), ('f64 (m*2^-30)', Fraction(1, 2 ** 30), 0, float),
+               ('f64 (m+2^20)', 1, 2 ** 20, float))
+# long clusters ("for every cluster"): lcg_perm(n, 0) for these lengths, steps TM_LONG_STEPS, every lag, the cluster shapes
+# (number of signals, master index) of TM_LONG_SHAPES
+TM_LONG_LENGTHS = (4999, 5001, 8192)
+TM_LONG_STEPS = (2, 5)
+TM_LONG_SHAPES = ((2, 0), (2, 1), (3, 1))
 
 # ---- same_start menus -------------------------------------------------------------------------
 SIG_SS = (0, 1, 3)
@@ -65,6 +90,10 @@ OFFGRID_WINDOWS = ((0.17, 0.26), (0.12, 0.23))
 SS_OFFGRID_INDEX_WINDOWS = {(0.17, 0.26): ((1, 3), (1, 4), (2, 3), (2, 4)), (0.12, 0.23): ((1, 3), (1, 4), (2, 3), (2, 4))}
 OFFGRID_GE_HALF = {w: any((Fraction(repr(b)) / Fraction('0.1')) % 1 >= Fraction(1, 2) for b in w) for w in OFFGRID_WINDOWS}
 OFFGRID_L = (4,)        # blocks (by word length) that also get the off-grid windows and the reported-average relation
+# same_start on clusters whose samples are v*mult+offset: a few 1e-9 around zero, and ~1e-3 apart on a common level of 1024
+# (section averages differ by ~1e-6 of their size); all values exact in binary.  Run on the blocks SS_VARIANT_BLOCKS.
+SS_VARIANTS = (('tiny (v*2^-30)', Fraction(1, 2 ** 30), 0), ('level (v*2^-10+2^10)', Fraction(1, 2 ** 10), 2 ** 10))
+SS_VARIANT_BLOCKS = ((2, 4, 'all', 1), (3, 4, 'R9', 2))
 
 
 def lcg_perm(n, j):
@@ -115,10 +144,17 @@ def build(tier, seed):
             seen.add(tuple(p))
             masters += 1
             cases.append({'kind': 'tm', 'master': p})
+    for n in TM_LONG_LENGTHS:
+        for steps in TM_LONG_STEPS:
+            cases.append({'kind': 'tm-long', 'n': n, 'j': 0, 'steps': steps})
     plan = ss_plan(tier)
     for m, L, fam, hl in plan:
         for head in itertools.product(ss_family(fam, L), repeat=hl):
             cases.append({'kind': 'ss', 'm': m, 'L': L, 'family': fam, 'head': [list(h) for h in head]})
+    for vname, _, _ in SS_VARIANTS:
+        for m, L, fam, hl in SS_VARIANT_BLOCKS:
+            for head in itertools.product(ss_family(fam, L), repeat=hl):
+                cases.append({'kind': 'ss', 'm': m, 'L': L, 'family': fam, 'head': [list(h) for h in head], 'variant': vname})
     return {
         'cases': cases,
         'rule': "kind 'rot': all pairs (ns, we) of words over {-1,0,2} of equal length 1..%d x angles %s (+180 partner) and "
@@ -129,17 +165,28 @@ def build(tier, seed):
                 "also x off-grid windows %s, and on all their windows every signal must report the master's "
                 "get_section_average(start, end) after same_start(start, end).  non-trivial = "
                 "rotation pair not both zero; lag-matching configuration with a non-zero lag; same-start cluster in which "
-                "some non-master's section average differs from the master's"
+                "some non-master's section average differs from the master's.  Added menus: rotation pairs of length <= %d "
+                "also with the components as %s (scan offset/points %s, every measure); returned combinations are overwritten in "
+                "place and the components checked afterwards; time_match clusters also as %s, and long clusters lcg_perm(n, 0), "
+                "n in %s x steps %s x every lag x (signals, master) in %s; same_start blocks %s also with samples %s"
                 % (Lrot, list(ANGLES), list(OFFSETS), list(POINTS), list(MEASURES), masters, list(TM_LENGTHS), list(TM_STEPS),
                    ['m=%d L=%d family=%s' % (m, L, f) for m, L, f, _ in plan], [list(w) for w in WINDOWS], list(OFFGRID_L),
-                   [list(w) for w in OFFGRID_WINDOWS]),
+                   [list(w) for w in OFFGRID_WINDOWS], ROT_VARIANT_MAX_LEN, [v[0] for v in ROT_VARIANTS],
+                   [list(x) for x in ROT_VARIANT_SCAN], [v[0] for v in TM_VARIANTS], list(TM_LONG_LENGTHS), list(TM_LONG_STEPS),
+                   [list(x) for x in TM_LONG_SHAPES], ['m=%d L=%d family=%s' % (m, L, f) for m, L, f, _ in SS_VARIANT_BLOCKS],
+                   [v[0] for v in SS_VARIANTS]),
         'bounds': {'rotation': {'alphabet': SIG_ROT, 'max_len': Lrot, 'angles': ANGLES, 'offsets': OFFSETS, 'points': POINTS,
-                                'measures': MEASURES, 's_a_points': S_A_POINTS, 'dt': ROT_DT},
+                                'measures': MEASURES, 's_a_points': S_A_POINTS, 'dt': ROT_DT,
+                                'component_variants': [v[0] for v in ROT_VARIANTS], 'variant_max_len': ROT_VARIANT_MAX_LEN,
+                                'variant_scans': ROT_VARIANT_SCAN},
                    'time_match': {'lengths': TM_LENGTHS, 'masters_per_length': TM_FAMILY, 'steps': TM_STEPS,
-                                  'cluster_sizes': [2, 3, 4], 'dt': TM_DT},
+                                  'cluster_sizes': [2, 3, 4], 'dt': TM_DT, 'value_variants': [v[0] for v in TM_VARIANTS],
+                                  'long_lengths': TM_LONG_LENGTHS, 'long_steps': TM_LONG_STEPS,
+                                  'long_shapes': TM_LONG_SHAPES},
                    'same_start': {'alphabet': SIG_SS, 'blocks': [[m, L, f] for m, L, f, _ in plan], 'windows': WINDOWS,
                                   'offgrid_windows': OFFGRID_WINDOWS, 'offgrid_and_reported_average_relation_for_L': OFFGRID_L,
-                                  'dt': SS_DT,
+                                  'dt': SS_DT, 'value_variants': [v[0] for v in SS_VARIANTS],
+                                  'variant_blocks': [[m, L, f] for m, L, f, _ in SS_VARIANT_BLOCKS],
                                   'families': {'all': 'all words of length L', 'R27': '(x,y,z,1[,0])', 'R9': '(x,y,3,1[,0])'}}},
         'required_classes': ['rot-theta-0', 'rot-theta-90', 'rot-negation', 'rot-general-angle',
                              'scan-pga', 'scan-pgv', 'scan-arias_intensity', 'scan-func-scalar', 'scan-func-series',
@@ -151,7 +198,11 @@ def build(tier, seed):
                              'ss-nsig-2', 'ss-nsig-3', 'ss-nsig-4', 'ss-master-0', 'ss-master-1', 'ss-master-last',
                              'ss-shift-nonzero', 'ss-already-aligned', 'ss-window-decided', 'ss-window-rounding-tie',
                              'ss-window-off-grid', 'ss-window-bound-fraction-ge-half', 'ss-window-bound-fraction-lt-half',
-                             'ss-reported-average-relation'],
+                             'ss-reported-average-relation',
+                             'rot-near-special-angle', 'rot-variant-i64', 'rot-variant-i16', 'rot-variant-u8', 'rot-variant-f32',
+                             'rot-variant-f64', 'rot-variant-history',
+                             'tm-variant-i64', 'tm-variant-f64-transformed', 'tm-long-cluster', 'tm-length-odd', 'tm-length-even',
+                             'ss-variant-tiny', 'ss-variant-level', 'ss-variant-shift-nonzero'],
         'assumptions': ['rotation reference: ns*cos(theta)+we*sin(theta) with math.cos/math.sin per sample; measures from '
                         'their definitions (max abs; trapezoid velocity; pi/(2*9.81)*trapezoid(a^2); user callables)',
                         'lag matching is examined only for slaves that are exact edge-padded integer shifts of a master with '
@@ -165,6 +216,11 @@ def build(tier, seed):
                         'the chosen section average of a signal is what Signal.get_section_average(start=, end=) reports for '
                         'the same bounds (relation between public calls); the floor/ceil index windows only feed the '
                         'non-triviality count',
+                        'variants: samples v*mult+offset exactly representable in the stated type; references for the values '
+                        'actually passed, tolerances relative to their size; unsigned / narrow integer CLUSTERS are not examined '
+                        '(time_match forms differences and squares in the samples\' own type)',
+                        'long time_match clusters: one permutation master per length, integer lags unique by an exact int64 '
+                        'brute-force search',
                         'series-valued named parameters (velocity, displacement: trapezoid rule as for pgv; s_a: the library\'s own '
                         's_a of the reference combination, default periods): row i of the scan is the whole series']}
 
@@ -227,15 +283,75 @@ def circ_diff(a, b):
     return (a - b + 180.0) % 360.0 - 180.0
 
 
+def affine(v, mult, off):
+    return Fraction(v) * Fraction(mult) + Fraction(off)
+
+
+def build_arr(vals_fr, typ):
+    """ndarray of the exact rationals vals_fr (all exactly representable in the requested type)"""
+    if typ in (float, np.float32):
+        a = np.array([float(v) for v in vals_fr], dtype=typ)
+    else:
+        a = np.array([int(v) for v in vals_fr], dtype=typ)
+    assert all(Fraction(float(x)) == v for x, v in zip(a.tolist(), vals_fr)), 'sample not representable'
+    return a
+
+
+def _acc_with_history(other, values):
+    """AccSignal that held ANOTHER record of a different length, had its lazy properties read and its auxiliary statistics
+    generated, and was then given this record through reset_values (failures while building the history are ignored)."""
+    sg = eqsig.AccSignal(np.array(other, dtype=float), ROT_DT)
+    with np.errstate(all='ignore'):
+        for step in (lambda: sg.velocity, lambda: sg.displacement, lambda: sg.pga, lambda: sg.pgv, lambda: sg.fa_spectrum,
+                     lambda: sg.generate_cumulative_stats(), lambda: sg.generate_duration_stats()):
+            try:
+                step()
+            except Exception:
+                pass
+    return sg
+
+
 def run_rot(c):
     r = Res()
     ns, we = c['ns'], c['we']
-    n = len(ns)
     if any(ns) or any(we):
         r.nontrivial += 1
-    ns_sig = eqsig.AccSignal(np.array(ns, dtype=float), ROT_DT)
-    we_sig = eqsig.AccSignal(np.array(we, dtype=float), ROT_DT)
+    _rot_body(r, ns, we, None, 1, 0, float)
+    if len(ns) <= ROT_VARIANT_MAX_LEN:
+        for tag, mult, off, typ in ROT_VARIANTS:
+            r.cls('rot-variant-' + tag.split(' ')[0])
+            _rot_body(r, ns, we, tag, mult, off, typ)
+    return r
+
+
+def _rot_body(r, ns, we, tag, mult, off, typ):
+    """tag None: the historical float64 components with the full scan menu; otherwise one container / scaling / history
+    variant (sub gets 'values') with the scans of ROT_VARIANT_SCAN."""
+    plain = tag is None
+    n = len(ns)
+    nsx = [float(affine(v, mult, off)) for v in ns]       # the samples actually passed (exact)
+    wex = [float(affine(v, mult, off)) for v in we]
+    pk = max(max(abs(v) for v in nsx + wex), float(mult)) if not plain else 1.0
+    ns_arr = build_arr([affine(v, mult, off) for v in ns], typ)
+    we_arr = build_arr([affine(v, mult, off) for v in we], typ)
+    if tag == 'history':
+        ns_sig = _acc_with_history(list(ns) + [1, 2], ns_arr)
+        we_sig = _acc_with_history(list(we) + [2, -1], we_arr)
+        try:        # the functions under test on the other records, then the records of this case
+            eqsig.combine_at_angle(ns_sig, we_sig, 30)
+            eqsig.compute_rotated(ns_sig, we_sig, parameter='pga', points=3)
+            eqsig.compute_rotated(ns_sig, we_sig, parameter='arias_intensity', points=3)
+        except Exception:
+            pass
+        ns_sig.reset_values(ns_arr)
+        we_sig.reset_values(we_arr)
+    else:
+        ns_sig = eqsig.AccSignal(ns_arr, ROT_DT)
+        we_sig = eqsig.AccSignal(we_arr, ROT_DT)
     base = {'ns': ns, 'we': we}
+    if not plain:
+        base['values'] = tag
+    at = 1e-12 * pk
     for th in ANGLES:
         sub = dict(base, theta=th)
         r.states += 1
@@ -250,77 +366,96 @@ def run_rot(c):
         r.expect('rotation.type-dt', sub, good, 'result is not an AccSignal with the components\' dt and length',
                  observed=(type(out).__name__, getattr(out, 'dt', None), getattr(out, 'npts', None)))
         vals = getattr(out, 'values', None)
-        r.expect_close('rotation.formula', sub, vals, ref_combo(ns, we, th), rtol=0.0, atol=1e-12,
+        try:
+            vals = np.array(vals, dtype=float)          # private copy; the returned object's array is overwritten below
+            out.values[...] = 77.0
+        except Exception:
+            pass
+        r.expect_close('rotation.formula', sub, vals, ref_combo(nsx, wex, th), rtol=0.0, atol=at,
                        what='combine_at_angle vs ns*cos+we*sin')
         if th % 360 == 0:
-            r.cls('rot-theta-0')
-            r.expect_close('rotation.theta-0', sub, vals, [float(v) for v in ns], rtol=0.0, atol=1e-12)
+            if plain:
+                r.cls('rot-theta-0')
+            r.expect_close('rotation.theta-0', sub, vals, nsx, rtol=0.0, atol=at)
         elif th % 360 == 90:
-            r.cls('rot-theta-90')
-            r.expect_close('rotation.theta-90', sub, vals, [float(v) for v in we], rtol=0.0, atol=1e-12)
-        else:
-            r.cls('rot-general-angle')
+            if plain:
+                r.cls('rot-theta-90')
+            r.expect_close('rotation.theta-90', sub, vals, wex, rtol=0.0, atol=at)
+        elif plain:
+            r.cls('rot-near-special-angle' if min(abs(th % 90), 90 - abs(th % 90)) < 1e-3 else 'rot-general-angle')
         r.transitions += 1
-        r.cls('rot-negation')
+        if plain:
+            r.cls('rot-negation')
         ok, out2 = r.call('rotation.negation', sub, eqsig.combine_at_angle, ns_sig, we_sig, th + 180)
         if ok:
             try:
                 neg = -np.asarray(vals, dtype=float)
             except Exception:
                 neg = None
-            r.expect_close('rotation.negation', sub, getattr(out2, 'values', None), neg, rtol=0.0, atol=1e-12,
+            r.expect_close('rotation.negation', sub, getattr(out2, 'values', None), neg, rtol=0.0, atol=at,
                            what='combination at theta+180 vs minus combination at theta')
-    for off in OFFSETS:
-        for pts in POINTS:
-            want_ang = [180.0 * i / (pts - 1) for i in range(pts)]
-            combos = [ref_combo(ns, we, a - off) for a in want_ang]
-            for meas in MEASURES:
-                if meas == 's_a' and pts not in S_A_POINTS:
-                    continue
-                sub = dict(base, offset=off, points=pts, measure=meas)
-                r.states += 1
+    scans = [(o, p) for o in OFFSETS for p in POINTS] if plain else list(ROT_VARIANT_SCAN)
+    for off_ns, pts in scans:
+        want_ang = [180.0 * i / (pts - 1) for i in range(pts)]
+        combos = [ref_combo(nsx, wex, a - off_ns) for a in want_ang]
+        for meas in MEASURES:
+            if meas == 's_a' and pts not in S_A_POINTS:
+                continue
+            sub = dict(base, offset=off_ns, points=pts, measure=meas)
+            r.states += 1
+            if plain:
                 r.cls('scan-' + meas)
-                r.cls('scan-offset-%d' % off)
+                r.cls('scan-offset-%d' % off_ns)
                 r.cls('scan-points-%d' % pts)
-                kw = {'angle_off_ns': off, 'points': pts}
-                if meas == 'func-scalar':
-                    kw['func'] = _f_scalar
-                elif meas == 'func-series':
-                    kw['func'] = _f_series
-                    if n > 1 and any(abs(math.fsum(cb) - cb[0]) > 1e-6 for cb in combos):
-                        r.cls('scan-series-last-differs-from-first')
-                else:
-                    kw['parameter'] = meas
-                ok, out = r.call('rotated.scan', sub, eqsig.compute_rotated, ns_sig, we_sig, **kw)
-                if not ok:
-                    continue
-                try:
-                    deg, vals = out
-                    deg = [float(v) for v in np.asarray(deg, dtype=float).ravel()]
-                except Exception:
-                    r.fail('rotated.scan', sub, 'result is not an (angles, values) pair', observed=out)
-                    continue
-                if not r.expect('rotated.angles', sub, len(deg) == pts, 'number of angles differs from points',
-                                observed=deg, expected=pts):
-                    continue
-                err = [circ_diff(d + off, a) for d, a in zip(deg, want_ang)]
-                r.expect('rotated.angles', sub, all(abs(e) <= 1e-9 for e in err),
-                         '(angle + offset) mod 360 differs from linspace(0, 180, points) mod 360',
-                         observed=deg, expected=[(a - off) % 360.0 for a in want_ang])
-                try:
-                    want = [ref_measure(meas, cb, ROT_DT) for cb in combos]
-                except Exception as e:  # noqa   (only the library-evaluated measure 's_a' can raise here)
-                    r.fail('rotated.scan', sub, 'the measure of the reference combination cannot be evaluated: %r' % (e,))
-                    continue
-                if meas in SERIES_MEASURES:
-                    # series-valued named parameter: row i is the whole series of combination i
+            kw = {'angle_off_ns': off_ns, 'points': pts}
+            if meas == 'func-scalar':
+                kw['func'] = _f_scalar
+            elif meas == 'func-series':
+                kw['func'] = _f_series
+                if plain and n > 1 and any(abs(math.fsum(cb) - cb[0]) > 1e-6 for cb in combos):
+                    r.cls('scan-series-last-differs-from-first')
+            else:
+                kw['parameter'] = meas
+            ok, out = r.call('rotated.scan', sub, eqsig.compute_rotated, ns_sig, we_sig, **kw)
+            if not ok:
+                continue
+            try:
+                deg, vals = out
+                deg = [float(v) for v in np.asarray(deg, dtype=float).ravel()]
+            except Exception:
+                r.fail('rotated.scan', sub, 'result is not an (angles, values) pair', observed=out)
+                continue
+            if not r.expect('rotated.angles', sub, len(deg) == pts, 'number of angles differs from points',
+                            observed=deg, expected=pts):
+                continue
+            err = [circ_diff(d + off_ns, a) for d, a in zip(deg, want_ang)]
+            r.expect('rotated.angles', sub, all(abs(e) <= 1e-9 for e in err),
+                     '(angle + offset) mod 360 differs from linspace(0, 180, points) mod 360',
+                     observed=deg, expected=[(a - off_ns) % 360.0 for a in want_ang])
+            try:
+                want = [ref_measure(meas, cb, ROT_DT) for cb in combos]
+            except Exception as e:  # noqa   (only the library-evaluated measure 's_a' can raise here)
+                r.fail('rotated.scan', sub, 'the measure of the reference combination cannot be evaluated: %r' % (e,))
+                continue
+            am = 1e-13 * (pk * pk if meas == 'arias_intensity' else pk)
+            if meas in SERIES_MEASURES:
+                # series-valued named parameter: row i is the whole series of combination i
+                if plain:
                     r.cls('scan-series-valued-parameter')
-                    r.expect_close('rotated.values', sub, vals, want, rtol=1e-9, atol=1e-13,
-                                   what='row i vs the whole %s series of the reference combination at angle i' % meas)
-                    continue
-                r.expect_close('rotated.values', sub, vals, want, rtol=1e-9, atol=1e-13,
-                               what='value i vs %s of the reference combination at angle i' % meas)
-    return r
+                r.expect_close('rotated.values', sub, vals, want, rtol=1e-9, atol=am,
+                               what='row i vs the whole %s series of the reference combination at angle i' % meas)
+                continue
+            r.expect_close('rotated.values', sub, vals, want, rtol=1e-9, atol=am,
+                           what='value i vs %s of the reference combination at angle i' % meas)
+    # the components themselves are left alone by all of the above (also by overwriting the returned combinations)
+    for nm, sg, arr, xs in (('ns', ns_sig, ns_arr, nsx), ('we', we_sig, we_arr, wex)):
+        try:
+            same = bits_equal(np.asarray(sg.values), arr) and sg.dt == ROT_DT and sg.npts == n
+        except Exception:
+            same = False
+        r.expect('rotation.components-unchanged', dict(base, component=nm), same,
+                 'the %s component was modified by combine_at_angle / compute_rotated (or by writing into a returned combination)' % nm,
+                 observed=getattr(sg, 'values', None), expected=xs)
 
 
 # ---------------------------------------------------------------------------------------------
@@ -357,75 +492,122 @@ def lag_is_unique_minimiser(m, slave, lag, steps):
     return arg1 == [lag] and arg2 == [lag]
 
 
+def lag_is_unique_minimiser_long(m, slave, lag, steps):
+    """Same brute force for long records, in exact int64 arithmetic (samples are integers below 2^14)."""
+    a = np.array(m, dtype=np.int64)
+    b = np.array(slave, dtype=np.int64)
+    n = len(a)
+    tot = {}
+    for c in range(-steps + 1, steps):
+        d = a[:n - c] - b[c:] if c >= 0 else a[-c:] - b[:n + c]
+        tot[c] = (int(np.sum(d * d)), n - abs(c))
+    best = min(v[0] for v in tot.values())
+    arg1 = [c for c, v in tot.items() if v[0] == best]
+    bestm = min(Fraction(v[0], v[1]) for v in tot.values())
+    arg2 = [c for c, v in tot.items() if Fraction(v[0], v[1]) == bestm]
+    return arg1 == [lag] and arg2 == [lag]
+
+
 def run_tm(c):
     r = Res()
+    if c['kind'] == 'tm-long':
+        m = lcg_perm(c['n'], c['j'])
+        name = 'lcg_perm(%d, %d)' % (c['n'], c['j'])
+        r.cls('tm-long-cluster')
+        r.cls('tm-length-odd' if c['n'] % 2 else 'tm-length-even')
+        _tm_body(r, m, name, (c['steps'],), TM_LONG_SHAPES, TM_VARIANTS[:1], lag_is_unique_minimiser_long)
+        return r
     m = list(c['master'])
+    shapes = [(nsig, mi) for nsig in (2, 3, 4) for mi in range(nsig)]
+    _tm_body(r, m, m, TM_STEPS, shapes, TM_VARIANTS, lag_is_unique_minimiser)
+    return r
+
+
+def _tm_body(r, m, mname, steps_menu, shapes, variants, unique):
     n = len(m)
-    for steps in TM_STEPS:
+    for steps in steps_menu:
         for lag in range(-steps + 1, steps):
             nxt = lag + 1 if lag + 1 <= steps - 1 else -(steps - 1)
             lag_menu = [lag, -lag, nxt]
-            for nsig in (2, 3, 4):
-                for mi in range(nsig):
-                    others = [i for i in range(nsig) if i != mi]
-                    lags = {o: lag_menu[j] for j, o in enumerate(others)}
-                    series = {o: lagged(m, lags[o]) for o in others}
-                    if not all(lag_is_unique_minimiser(m, series[o], lags[o], steps) for o in others):
-                        r.disabled['time_match: true lag not the unique minimiser'] += 1
-                        continue
-                    sub = {'master': m, 'steps': steps, 'lag': lag, 'nsig': nsig, 'master_index': mi}
-                    r.states += 1
-                    if lag != 0:
-                        r.nontrivial += 1
-                    r.cls('tm-lag-positive' if lag > 0 else ('tm-lag-negative' if lag < 0 else 'tm-lag-zero'))
-                    if abs(lag) == steps - 1:
-                        r.cls('tm-max-lag')
-                    r.cls('tm-nsig-%d' % nsig)
-                    r.cls('tm-master-0' if mi == 0 else 'tm-master-nonzero')
-                    vals = [None] * nsig
-                    vals[mi] = np.array(m, dtype=float)
-                    for o in others:
-                        vals[o] = np.array(series[o], dtype=float)
+            lagged_m = {lg: lagged(m, lg) for lg in set(lag_menu)}
+            uniq = {lg: unique(m, lagged_m[lg], lg, steps) for lg in set(lag_menu)}
+            for nsig, mi in shapes:
+                others = [i for i in range(nsig) if i != mi]
+                lags = {o: lag_menu[j] for j, o in enumerate(others)}
+                series = {o: lagged_m[lags[o]] for o in others}
+                if not all(uniq[lags[o]] for o in others):
+                    r.disabled['time_match: true lag not the unique minimiser'] += 1
+                    continue
+                for vtag, mult, off, typ in variants:
+                    _tm_config(r, m, mname, n, steps, lag, nsig, mi, others, lags, series, vtag, mult, off, typ)
 
-                    def go():
-                        cl = eqsig.Cluster([v.copy() for v in vals], TM_DT, master_index=mi)
-                        cl.time_match(steps=steps)
-                        return cl
-                    ok, cl = r.call('time_match.call', sub, go)
-                    if not ok:
-                        continue
-                    for o in others:
-                        s2 = dict(sub, signal=o, signal_lag=lags[o])
-                        r.transitions += 1
-                        try:
-                            sig = cl.signal_by_index(o)
-                            v = sig.values
-                            npts = sig.npts
-                        except Exception as e:  # noqa
-                            r.fail('time_match.call', s2, 'cannot read the matched signal: %r' % (e,))
-                            continue
-                        r.expect('time_match.values-ndarray', s2, isinstance(v, np.ndarray),
-                                 'values is a %s after time_match, not an ndarray' % type(v).__name__, observed=v)
-                        try:
-                            ln = len(v)
-                        except Exception:
-                            ln = None
-                        r.expect('time_match.length', s2, ln == n and npts == n, 'length changed', observed=(ln, npts), expected=n)
-                        lg = lags[o]
-                        try:
-                            got = list(v)[:n - lg] if lg >= 0 else list(v)[-lg:]
-                        except Exception:
-                            got = None
-                        want = m[:n - lg] if lg >= 0 else m[-lg:]
-                        r.expect_close('time_match.overlap', s2, got, [float(x) for x in want], rtol=0.0, atol=1e-12,
-                                       what='overlapping samples vs master after removing lag %d' % lg)
-                    try:
-                        mv = cl.signal_by_index(mi).values
-                    except Exception:
-                        mv = None
-                    r.expect('time_match.master-unchanged', sub, isinstance(mv, np.ndarray) and bits_equal(mv, vals[mi]),
-                             'master signal was modified', observed=mv, expected=m)
-    return r
+
+def _tm_config(r, m, mname, n, steps, lag, nsig, mi, others, lags, series, vtag, mult, off, typ):
+    sub = {'master': mname, 'steps': steps, 'lag': lag, 'nsig': nsig, 'master_index': mi}
+    plain = vtag == 'f64'
+    if not plain:
+        sub['values'] = vtag
+        r.cls('tm-variant-' + vtag.split(' ')[0] + ('-transformed' if ' ' in vtag else ''))
+    r.states += 1
+    if lag != 0:
+        r.nontrivial += 1
+    if plain:
+        r.cls('tm-lag-positive' if lag > 0 else ('tm-lag-negative' if lag < 0 else 'tm-lag-zero'))
+        if abs(lag) == steps - 1:
+            r.cls('tm-max-lag')
+        r.cls('tm-nsig-%d' % nsig)
+        r.cls('tm-master-0' if mi == 0 else 'tm-master-nonzero')
+    fm, fo = float(mult), float(off)
+
+    def tr(xs):
+        if typ is float:
+            return np.array(xs, dtype=float) * fm + fo          # exact: dyadic multiplier, small integers
+        return np.array(xs, dtype=typ)
+    vals = [None] * nsig
+    vals[mi] = tr(m)
+    for o in others:
+        vals[o] = tr(series[o])
+    mx = [float(v) for v in vals[mi]]
+    at = 1e-12 * (fm if off == 0 else max(abs(v) for v in mx))
+
+    def go():
+        cl = eqsig.Cluster([v.copy() for v in vals], TM_DT, master_index=mi)
+        cl.time_match(steps=steps)
+        return cl
+    ok, cl = r.call('time_match.call', sub, go)
+    if not ok:
+        return
+    for o in others:
+        s2 = dict(sub, signal=o, signal_lag=lags[o])
+        r.transitions += 1
+        try:
+            sig = cl.signal_by_index(o)
+            v = sig.values
+            npts = sig.npts
+        except Exception as e:  # noqa
+            r.fail('time_match.call', s2, 'cannot read the matched signal: %r' % (e,))
+            continue
+        r.expect('time_match.values-ndarray', s2, isinstance(v, np.ndarray),
+                 'values is a %s after time_match, not an ndarray' % type(v).__name__, observed=v)
+        try:
+            ln = len(v)
+        except Exception:
+            ln = None
+        r.expect('time_match.length', s2, ln == n and npts == n, 'length changed', observed=(ln, npts), expected=n)
+        lg = lags[o]
+        try:
+            got = list(v)[:n - lg] if lg >= 0 else list(v)[-lg:]
+        except Exception:
+            got = None
+        want = mx[:n - lg] if lg >= 0 else mx[-lg:]
+        r.expect_close('time_match.overlap', s2, got, want, rtol=0.0, atol=at,
+                       what='overlapping samples vs master after removing lag %d' % lg)
+    try:
+        mv = cl.signal_by_index(mi).values
+    except Exception:
+        mv = None
+    r.expect('time_match.master-unchanged', sub, isinstance(mv, np.ndarray) and bits_equal(mv, vals[mi]),
+             'master signal was modified', observed=mv, expected=mx if n <= 64 else mname)
 
 
 # ---------------------------------------------------------------------------------------------
@@ -440,9 +622,14 @@ def run_ss(c):
     m, L = c['m'], c['L']
     fam = ss_family(c['family'], L)
     head = [list(h) for h in c['head']]
-    arrs = {tuple(w): np.array(w, dtype=float) for w in fam}
+    vname = c.get('variant')
+    mult, off = ([(mu, of) for nm, mu, of in SS_VARIANTS if nm == vname] or [(1, 0)])[0]
+    fm, fo = float(mult), float(off)
+    tol = 1e-12 * (abs(fo) + (3.0 * fm if vname else 1.0))      # relative to the size of the samples
+    arrs = {tuple(w): np.array(w, dtype=float) * fm + fo for w in fam}       # exact: dyadic multiplier, small integers
     for h in head:
-        arrs[tuple(h)] = np.array(h, dtype=float)
+        arrs[tuple(h)] = np.array(h, dtype=float) * fm + fo
+    olds = {k: [float(x) for x in v] for k, v in arrs.items()}
     n_states = n_cmp = n_trans = n_nontriv = 0
     ccount = {}
 
@@ -481,6 +668,11 @@ def run_ss(c):
                     else:
                         cc('ss-window-bound-fraction-lt-half')
                 sub = {'words': ws, 'master_index': mi, 'start': start, 'end': end}
+                if vname:
+                    sub['values'] = vname
+                    cc('ss-variant-' + vname.split(' ')[0])
+                    if moved:
+                        cc('ss-variant-shift-nonzero')
                 r.evals += 1
                 try:
                     cl = eqsig.Cluster([arrs[tuple(w)].copy() for w in ws], SS_DT, master_index=mi)
@@ -508,15 +700,16 @@ def run_ss(c):
                             if j == mi:
                                 continue
                             n_cmp += 1
-                            if not abs(rep_avg[j] - rep_avg[mi]) <= 1e-12:
+                            if not abs(rep_avg[j] - rep_avg[mi]) <= tol:
                                 r.fail('same_start.section-average-reported', dict(sub, signal=j),
                                        'after same_start(start, end) signal %d reports get_section_average(start, end) = %r, '
                                        'the master reports %r' % (j, rep_avg[j], rep_avg[mi]),
                                        observed=new[j], expected=rep_avg[mi])
                 # master unchanged
                 n_cmp += 1
-                if new[mi] != [float(x) for x in ws[mi]]:
-                    r.fail('same_start.master-unchanged', sub, 'master signal was modified', observed=new[mi], expected=ws[mi])
+                if new[mi] != olds[tuple(ws[mi])]:
+                    r.fail('same_start.master-unchanged', sub, 'master signal was modified', observed=new[mi],
+                           expected=olds[tuple(ws[mi])])
                 # section averages (on-grid windows): choose the admissible index window that fits best, report the misfits
                 best = None
                 for (s_i, e_i) in (iw if ongrid else ()):
@@ -529,7 +722,7 @@ def run_ss(c):
                             bad.append((j, None, ref))
                             continue
                         a = _mean(new[j][s_i:e_i])
-                        if not abs(a - ref) <= 1e-12:
+                        if not abs(a - ref) <= tol:
                             bad.append((j, a, ref))
                     if best is None or len(bad) < len(best):
                         best = bad
@@ -539,13 +732,14 @@ def run_ss(c):
                     n_trans += 1
                     n_cmp += 2 if ongrid else 1
                     # differs from its old self by one constant
+                    oj = olds[tuple(ws[j])]
                     if len(new[j]) != L:
-                        r.fail('same_start.constant-shift', dict(sub, signal=j), 'length changed', observed=new[j], expected=ws[j])
+                        r.fail('same_start.constant-shift', dict(sub, signal=j), 'length changed', observed=new[j], expected=oj)
                     else:
-                        d = [x - y for x, y in zip(new[j], ws[j])]
-                        if not (max(d) - min(d) <= 1e-12):
+                        d = [x - y for x, y in zip(new[j], oj)]
+                        if not (max(d) - min(d) <= tol):
                             r.fail('same_start.constant-shift', dict(sub, signal=j),
-                                   'signal does not differ from its old self by one constant', observed=new[j], expected=ws[j])
+                                   'signal does not differ from its old self by one constant', observed=new[j], expected=oj)
                 for j, a, ref in (best or ()):
                     r.fail('same_start.section-average', dict(sub, signal=j),
                            'section average of signal %d is %r, the master\'s is %r' % (j, a, ref),
@@ -562,7 +756,7 @@ def run_ss(c):
 def run_case(c):
     if c['kind'] == 'rot':
         return run_rot(c)
-    if c['kind'] == 'tm':
+    if c['kind'] in ('tm', 'tm-long'):
         return run_tm(c)
     return run_ss(c)
 
@@ -572,6 +766,7 @@ def snippet(case, v):
     head = "import numpy as np, eqsig\nsub = %r\n" % (sub,)
     if case.get('kind') == 'rot':
         return head + (
+            "# sub.get('values'): container / scaling of the components (v*mult+offset, see ROT_VARIANTS in mcheck/props/c18.py)\n"
             "ns = eqsig.AccSignal(np.array(sub['ns'], float), 0.01); we = eqsig.AccSignal(np.array(sub['we'], float), 0.01)\n"
             "if 'theta' in sub:\n"
             "    th = np.radians(sub['theta']); print(eqsig.combine_at_angle(ns, we, sub['theta']).values)\n"
@@ -580,9 +775,10 @@ def snippet(case, v):
             "    m = sub['measure']; kw = {'parameter': m} if not m.startswith('func') else \\\n"
             "        {'func': (lambda s: float(np.sum(np.abs(s.values)))) if m == 'func-scalar' else (lambda s: np.cumsum(s.values))}\n"
             "    print(eqsig.compute_rotated(ns, we, angle_off_ns=sub['offset'], points=sub['points'], **kw))\n")
-    if case.get('kind') == 'tm':
+    if case.get('kind') in ('tm', 'tm-long'):
         return head + (
-            "m = sub['master']; n = len(m); st = sub['steps']; l = sub['lag']\n"
+            "m = sub['master']   # a name 'lcg_perm(n, j)': see lcg_perm in mcheck/props/c18.py; sub.get('values'): TM_VARIANTS\n"
+            "n = len(m); st = sub['steps']; l = sub['lag']\n"
             "def lagged(m, lag):\n"
             "    return [m[0]] * lag + m[:n - lag] if lag > 0 else (m[-lag:] + [m[-1]] * (-lag) if lag < 0 else list(m))\n"
             "menu = [l, -l, l + 1 if l + 1 <= st - 1 else -(st - 1)]\n"
@@ -592,7 +788,8 @@ def snippet(case, v):
             "c = eqsig.Cluster(vals, 0.1, master_index=sub['master_index']); c.time_match(steps=st)\n"
             "for i in range(sub['nsig']): print(i, type(c.values_by_index(i)).__name__, [float(x) for x in c.values_by_index(i)])\n")
     return head + (
-        "c = eqsig.Cluster([np.array(w, float) for w in sub['words']], 0.1, master_index=sub['master_index'])\n"
+        "mult, off = {'tiny': (2.0 ** -30, 0.0), 'level': (2.0 ** -10, 2.0 ** 10)}.get(str(sub.get('values')).split(' ')[0], (1.0, 0.0))\n"
+        "c = eqsig.Cluster([np.array(w, float) * mult + off for w in sub['words']], 0.1, master_index=sub['master_index'])\n"
         "c.same_start(start=sub['start'], end=sub['end'])\n"
         "for i in range(len(sub['words'])):\n"
         "    print(i, c.values_by_index(i), c.signal_by_index(i).get_section_average(start=sub['start'], end=sub['end']))\n")
